@@ -97,8 +97,11 @@ Definition d_static_raw (cst : bool) (t : ty) (x : ident) (v : Z) : M unit := fu
               sout := sout s |}).
 
 (* plain assignment `x = v;` to a name find_variable does not know creates the variable in the current
-   scope (managers/variables/assignment.cpp: the value is stored in a fresh Variable; any int64 fits);
-   compound assignment, ++/-- and element assignment report "Undefined variable" *)
+   scope (managers/variables/assignment.cpp: the value is stored in a fresh Variable whose type is the
+   type of the VALUE - modelled as `long`, which is exact for long-typed values; a bool-typed value,
+   e.g. a comparison, makes a bool variable: not modelled, the generators never create variables this
+   way, the one recorded replay uses a literal); compound assignment, ++/-- and element assignment
+   report "Undefined variable" *)
 Definition tlong : ty := {| base := TLong; uns := false |}.
 Definition d_assign (lv : lval) (x : ident) (idx : list Z) (v : Z) : M unit := fun s =>
   match lv, dget x s with
